@@ -104,7 +104,12 @@ def netItem (s : St) (acc : Nat → Option Nat) (tok : String) (later : List Str
         | none => .error "isReady"
       | none => .error "fill"
     else if kind = "eC" then
-      if b = "t" then check (stepsN s [.pollRemote id false, .pending .ready, .beginReceive 0 false]) "Connected(true) needs a live, not yet ready, connect()-made resource"
+      if b = "t" then
+        -- the readiness event that completes the handshake may be a read event: `process` then goes on
+        -- to `receive` on the register it holds, even if the callback removed the resource meanwhile
+        let k := batchLen id later
+        if k = 0 then check (stepsN s [.pollRemote id false, .pending .ready, .beginReceive 0 false]) "Connected(true) needs a live, not yet ready, connect()-made resource"
+        else check (stepsN s [.pollRemote id true, .pending .ready, .beginReceive k false]) "Connected(true) needs a live, not yet ready, connect()-made resource"
       else
         match stepsN s [.pollRemote id false, .pending .disconnected, .beginReceive 0 false] with
         | some s' => if s'.log.getLast? = some (.connected id false) then .ok s' else .error s!"model rejects {tok}: not a connect()-made pending resource"
@@ -112,7 +117,9 @@ def netItem (s : St) (acc : Nat → Option Nat) (tok : String) (later : List Str
     else if kind = "eA" then
       match b.toNat?, filled (id + 1) with
       | some lid, some s0 =>
-        match stepsN s0 [.pollRemote id false, .pending .ready, .beginReceive 0 false] with
+        let k := batchLen id later
+        match stepsN s0 (if k = 0 then [.pollRemote id false, .pending .ready, .beginReceive 0 false]
+                         else [.pollRemote id true, .pending .ready, .beginReceive k false]) with
         | some s' => if s'.log.getLast? = some (.accepted id lid) then .ok s' else .error s!"model rejects {tok}: accepted by another listener or not an accepted resource"
         | none => .error s!"model rejects {tok}: Accepted needs a live, not yet ready resource"
       | _, _ => .error s!"bad-case {tok}"
